@@ -268,6 +268,8 @@ type Failure struct {
 	OpIndex int            `json:"op_index"`
 	Op      string         `json:"op"`
 	Detail  map[string]any `json:"detail"`
+	// FromHook: raised by Hooks.AfterOp (C18's probes), not by this package's oracle.
+	FromHook bool `json:"from_hook,omitempty"`
 }
 
 // Result of executing one program.
@@ -293,9 +295,9 @@ func (r Result) NonTrivial(p *Program, slotLen int) bool {
 
 // Hooks lets C18 look at every state reached.
 type Hooks struct {
-	// AfterOp runs after operation i was executed and verified. It may move the cursor. A non-nil
-	// Failure stops the program.
-	AfterOp func(i int, s Store, m *Model) *Failure
+	// AfterOp runs after operation i (of n) was executed and verified. It may move the cursor. A
+	// non-nil Failure stops the program.
+	AfterOp func(i, n int, p *Program, s Store, m *Model) *Failure
 }
 
 type pendKind int
@@ -337,13 +339,6 @@ type exec struct {
 	shapeBefore string
 }
 
-func (e *exec) cls() string {
-	if e.p.Cfg.Unique {
-		return "uniq"
-	}
-	return "dup"
-}
-
 func (e *exec) fail(outcome string, detail map[string]any) *Failure {
 	if detail == nil {
 		detail = map[string]any{}
@@ -369,11 +364,7 @@ func (e *exec) fail(outcome string, detail map[string]any) *Failure {
 		// content outcomes carry the shape the tree had BEFORE the operation
 		site += "@" + e.shapeBefore
 	}
-	scen := e.cls() + "-nobal"
-	if e.p.Cfg.Balance && e.p.Cfg.Variant == "owned" {
-		scen = e.cls() + "-bal"
-	}
-	return &Failure{Sig: fmt.Sprintf("%s:%s:%s:%s", e.id, scen, site, outcome), OpIndex: e.ctxI, Op: e.ctxO.String(), Detail: detail}
+	return &Failure{Sig: fmt.Sprintf("%s:%s:%s:%s", e.id, e.p.Cfg.Scenario(), site, outcome), OpIndex: e.ctxI, Op: e.ctxO.String(), Detail: detail}
 }
 
 // family groups operation kinds for signatures.
@@ -1001,17 +992,22 @@ func execute(id string, p *Program, h *Hooks, trace bool) Result {
 
 func (e *exec) hook(h *Hooks, i int) (fl *Failure) {
 	e.s.SetBudget(5000000 + 2000*e.m.n)
+	e.callSite = "probe"
+	defer func() { e.callSite = "" }()
 	defer func() {
 		if x := recover(); x != nil {
 			if b, ok := x.(BudgetExceeded); ok {
 				fl = e.fail("probe-no-termination", map[string]any{"repository_gets": b.Gets})
+				fl.FromHook = true
 				return
 			}
 			fl = e.fail("probe-panic", map[string]any{"panic": fmt.Sprint(x), "stack": string(debug.Stack())})
+			fl.FromHook = true
 		}
 	}()
-	f := h.AfterOp(i, e.s, e.m)
+	f := h.AfterOp(i, len(e.p.Ops), e.p, e.s, e.m)
 	if f != nil {
+		f.FromHook = true
 		f.OpIndex = i
 		if f.Detail == nil {
 			f.Detail = map[string]any{}
